@@ -47,7 +47,9 @@ func ForLookup(domain string) (string, error) {
 	// Side note: strings.ToLower does not support full case-folding, so it is
 	// important to apply NFC normalization first.
 	uDomain = norm.NFC.String(uDomain)
-	uDomain = strings.ToLower(uDomain)
+	// Lower-casing can produce a sequence that has a precomposed form while
+	// the upper-case one has not (e.g. J + U+030C), normalize again.
+	uDomain = norm.NFC.String(strings.ToLower(uDomain))
 	uDomain = strings.TrimSuffix(uDomain, ".")
 	return uDomain, nil
 }
